@@ -1,6 +1,6 @@
 From Coq Require Import ZArith.
-From DV Require Import Lca.
+From DV Require Import Lca Walk.
 Require Extraction.
 Require Import ExtrOcamlBasic.
 (* Z.succ only so that the shared OCaml glue (which mentions z/positive) links *)
-Extraction "model.ml" find_lcas can_fast_forward lca_fuel pick_max ancb Z.succ.
+Extraction "model.ml" find_lcas can_fast_forward lca_fuel pick_max ancb Walk.walk Walk.topo Z.succ.
